@@ -8,7 +8,14 @@ import Ebv.Model.Mbx
   `creation_window_safe` (file absent, every schedule, including any activity inside the creator's two steps),
   `holder_can_proceed` (whoever holds the record lock can always run on to its unlock), `addr_accepted`.
   The schedules that refuted these statements on the code before the three `fix:` commits are kept as
-  `same_process_witness_now` / `creation_window_witness_now`, evaluated on the repaired model. -/
+  `same_process_witness_now` / `creation_window_witness_now`, evaluated on the repaired model.
+* exchanges that FAIL or are CANCELLED (`Sec.cut`: the block is left by an exception while its request is out; an
+  error between two exchanges is a block with fewer exchanges).  All statements above quantify over such blocks as
+  well; in addition `failed_total` (exactly one counter per message that left, abandoned requests included),
+  `counter_tracks_bus` / `file_tracks_bus` (what the lock keeps for the next user — the `MailboxLock`'s counter, the
+  terminal's byte in the lock file whenever the record lock is free — is the successor of the latest counter on the
+  bus, whatever the outcomes of the earlier exchanges), witnesses `failed_exchange_witness`,
+  `failed_crossproc_witness`. -/
 namespace Ebv.C15
 open Ebv.Mbx Ebv.Consts
 
@@ -77,6 +84,7 @@ def wf : Mode → List Step → Bool
   | .inn, .send :: r => wf .pend r
   | .pend, .recv :: r => wf .inn r
   | .inn, .rel :: r => wf .out r
+  | .pend, .abort :: r => wf .inn r
   | _, _ => false
 
 theorem wf_exchanges (n : Nat) (q : List Step) : wf .inn (exchanges n ++ q) = wf .inn q := by
@@ -84,13 +92,13 @@ theorem wf_exchanges (n : Nat) (q : List Step) : wf .inn (exchanges n ++ q) = wf
   | zero => rfl
   | succ n ih => simpa [exchanges, wf] using ih
 
-theorem wf_prog (ns : List Nat) : wf .out (prog ns) = true := by
+theorem wf_prog (ns : List Sec) : wf .out (prog ns) = true := by
   induction ns with
   | nil => rfl
-  | cons n ns ih =>
+  | cons x xs ih =>
     simp only [prog, critical, List.cons_append, wf, List.append_assoc]
     rw [wf_exchanges]
-    simpa [wf] using ih
+    cases hc : x.cut <;> simpa [ending, wf] using ih
 
 theorem wf_out {p : List Step} (h : wf .out p = true) : p = [] ∨ ∃ r, p = .acq :: r ∧ wf .inn r = true := by
   cases p with
@@ -103,7 +111,8 @@ theorem wf_inn {p : List Step} (h : wf .inn p = true) :
   | nil => simp [wf] at h
   | cons a r => cases a <;> simp_all [wf]
 
-theorem wf_pend {p : List Step} (h : wf .pend p = true) : ∃ r, p = .recv :: r ∧ wf .inn r = true := by
+theorem wf_pend {p : List Step} (h : wf .pend p = true) :
+    ∃ r, (p = .recv :: r ∨ p = .abort :: r) ∧ wf .inn r = true := by
   cases p with
   | nil => simp [wf] at h
   | cons a r => cases a <;> simp_all [wf]
@@ -119,7 +128,7 @@ structure Inv (s : St) (k : Chk) : Prop where
   woken : s.woken = true → s.locked = false ∧ s.waiters ≠ []
   ctr : follows k.last s.counter = true
 
-theorem init_inv (tasks : List (List Nat)) : Inv (init tasks) chk0 where
+theorem init_inv (tasks : List (List Sec)) : Inv (init tasks) chk0 where
   progs t := by simp [modeOf, chk0, init, wf_prog]
   lock := rfl
   pend _ := rfl
@@ -162,9 +171,7 @@ theorem step_inv (s : St) (k : Chk) (t : Nat) (h : Inv s k) :
     · -- a request is out: the task reads the response
       have hm : modeOf k t = .pend := by simp [modeOf, hh, hp]
       obtain ⟨r, hpr, hr⟩ := wf_pend (hm ▸ h.progs t)
-      refine ⟨{ k with pend := false }, ?_, ?_⟩
-      · simp only [step, hpr]
-        refine ⟨?_, h.lock, fun hn => by simp, h.woken, h.ctr⟩
+      have hprogs : ∀ u, wf (modeOf { k with pend := false } u) (setProg s.progs t r u) = true := by
         intro u
         by_cases hu : u = t
         · subst hu; simp [modeOf, hh, setProg, hr]
@@ -172,7 +179,11 @@ theorem step_inv (s : St) (k : Chk) (t : Nat) (h : Inv s k) :
           rw [modeOf_other hh hu] at this
           simp only [setProg, hu, ↓reduceIte]
           rw [modeOf_other (k := { k with pend := false }) hh hu]; exact this
-      · intro rest; simp [step, hpr, check, chk1, hh, hp]
+      refine ⟨{ k with pend := false }, ?_, ?_⟩
+      · -- the response is read, or the exception that ends the block abandons the request: same lock state
+        rcases hpr with hpr | hpr <;> simp only [step, hpr] <;>
+          exact ⟨hprogs, h.lock, fun hn => by simp, h.woken, h.ctr⟩
+      · intro rest; rcases hpr with hpr | hpr <;> simp [step, hpr, check, chk1, hh, hp]
     · have hp' : k.pend = false := by simpa using hp
       have hm : modeOf k t = .inn := by simp [modeOf, hh, hp']
       rcases wf_inn (hm ▸ h.progs t) with ⟨r, hpr, hr⟩ | ⟨r, hpr, hr⟩
@@ -245,7 +256,7 @@ theorem run_ok (s : St) (k : Chk) (sched : List Nat) (h : Inv s k) : check k (ru
 schedule of the event loop, the trace satisfies `check`: critical sections of different tasks never
 overlap, every request is followed by its own response before the next request, every message carries the
 successor (in the cycle) of the previous message of *any* task, and `assert self.locked()` never fails -/
-theorem inproc_serialised (tasks : List (List Nat)) (sched : List Nat) :
+theorem inproc_serialised (tasks : List (List Sec)) (sched : List Nat) :
     check chk0 (run (init tasks) sched) = true :=
   run_ok _ _ _ (init_inv tasks)
 
@@ -259,6 +270,7 @@ theorem step_sent (s : St) (t : Nat) :
     · split <;> simp [sent]
     · split <;> simp [sent]
   · split <;> simp [sent]
+  · simp [sent]
   · simp [sent]
   · simp [sent]
 
@@ -283,9 +295,45 @@ theorem sent_run (s : St) (sched : List Nat) :
 
 /-- **in-process, counted**: the counters of all messages of all tasks, in the order they leave, are exactly
 0,1,…,7,1,… (`counter_cycle` gives each position) -/
-theorem inproc_counted (tasks : List (List Nat)) (sched : List Nat) :
+theorem inproc_counted (tasks : List (List Sec)) (sched : List Nat) :
     sent (run (init tasks) sched) = counters mbxStart (sent (run (init tasks) sched)).length :=
   sent_run _ _
+
+theorem lastFrom_append (l : Option Nat) (a b : List Ev) : lastFrom l (a ++ b) = lastFrom (lastFrom l a) b := by
+  induction a generalizing l with
+  | nil => rfl
+  | cons e a ih => cases e <;> simp [lastFrom, ih]
+
+theorem step_last (s : St) (t : Nat) (l : Option Nat) (h : follows l s.counter = true) :
+    follows (lastFrom l (step s t).2) (step s t).1.counter = true := by
+  unfold step
+  split
+  · simpa [lastFrom] using h
+  · split
+    · split <;> simpa [lastFrom] using h
+    · split <;> simpa [lastFrom] using h
+  · split
+    · simp [lastFrom, follows]
+    · simpa [lastFrom] using h
+  · simpa [lastFrom] using h
+  · simpa [lastFrom] using h
+  · simpa [lastFrom] using h
+
+theorem run_last (s : St) (sched : List Nat) (l : Option Nat) (h : follows l s.counter = true) :
+    follows (lastFrom l (run s sched)) (after s sched).counter = true := by
+  induction sched generalizing s l with
+  | nil => simpa [run, after, lastFrom] using h
+  | cons t ts ih =>
+    simp only [run, after, lastFrom_append]
+    exact ih _ _ (step_last s t l h)
+
+/-- **the lock is left in the state the next user expects**: after every schedule — blocks left normally, by an
+error between two exchanges, or by an exception/cancellation that abandons a request — the counter stored in the
+`MailboxLock` is the successor of the counter of the latest message on the bus (a counter ≤ 7 while nothing has
+been sent): whoever sends next continues the cycle -/
+theorem counter_tracks_bus (tasks : List (List Sec)) (sched : List Nat) :
+    follows (lastFrom none (run (init tasks) sched)) (after (init tasks) sched).counter = true :=
+  run_last _ _ _ (by simp [follows, init, mbxStart, mbxMod])
 
 /-! non-vacuity: three tasks contend; task 1 and 2 queue, release wakes task 1 while task 2 keeps waiting -/
 example : run (init [[1], [2], [1]]) [0, 1, 2, 0, 1, 0, 2, 0, 1, 1, 1, 2, 1, 1, 1, 2, 2, 2, 2]
@@ -293,6 +341,15 @@ example : run (init [[1], [2], [1]]) [0, 1, 2, 0, 1, 0, 2, 0, 1, 1, 1, 2, 1, 1, 
        .acq 2, .send 2 3, .recv 2, .rel 2] := by decide
 example : (after (init [[1], [2], [1]]) [0, 1, 2, 0, 1, 0, 2, 0]).waiters = [1, 2] ∧
     (after (init [[1], [2], [1]]) [0, 1, 2, 0, 1, 0, 2, 0]).woken = true := by decide
+
+/-! non-vacuity for blocks that are left by an exception: task 0's first block is cut right after its request
+(counter 0) while task 1 waits for the lock; task 1 continues with 1, completes that exchange, sends 2 and is cut;
+task 0 comes back with 3 -/
+theorem failed_exchange_witness :
+    run (init [[⟨0, true⟩, 1], [⟨1, true⟩]]) [0, 1, 0, 0, 0, 1, 1, 1, 1, 1, 1, 0, 0, 0, 0]
+      = [.acq 0, .send 0 0, .abort 0, .rel 0, .acq 1, .send 1 1, .recv 1, .send 1 2, .abort 1, .rel 1,
+         .acq 0, .send 0 3, .recv 0, .rel 0] ∧
+    secMessages [⟨0, true⟩, 1] + secMessages [⟨1, true⟩] = 4 := by decide
 
 /-! ### retries: attempts that fail before anything is written consume no counter
 
@@ -311,20 +368,31 @@ theorem sends_exchanges (n : Nat) : sends (exchanges n) = n := by
   | zero => rfl
   | succ n ih => simp [exchanges, sends, ih]
 
-theorem sends_prog (ns : List Nat) : sends (prog ns) = ns.sum := by
+theorem sends_prog (ns : List Sec) : sends (prog ns) = (ns.map Sec.messages).sum := by
   induction ns with
   | nil => rfl
-  | cons n ns ih =>
-    simp only [prog, critical, List.cons_append, sends, sends_append, sends_exchanges, ih, List.sum_cons]
-    simp [sends]
+  | cons x xs ih =>
+    simp only [prog, critical, List.cons_append, sends, sends_append, sends_exchanges, ih, List.map_cons,
+      List.sum_cons, Sec.messages]
+    cases x.cut <;> simp [ending, sends] <;> omega
 
-theorem sum_opSections (ops : List Op) : (opSections ops).sum = opMessages ops := by
+theorem sum_okSections (l : List Nat) :
+    ((l.map fun n => ({ n := n, cut := false } : Sec)).map Sec.messages).sum = l.sum := by
+  induction l with
+  | nil => rfl
+  | cons a l ih => simp only [List.map_cons, List.sum_cons, ih]; simp [Sec.messages]
+
+theorem sum_opSections (ops : List Op) : ((opSections ops).map Sec.messages).sum = opMessages ops := by
   induction ops with
   | nil => rfl
   | cons o ops ih =>
-    simp only [opSections, List.flatMap_cons, List.sum_append, opMessages, List.map_cons, List.sum_cons] at ih ⊢
+    simp only [opSections, List.flatMap_cons, List.map_append, List.sum_append, opMessages, List.map_cons,
+      List.sum_cons] at ih ⊢
     rw [ih]
-    simp [Op.sections, Op.messages]
+    have := sum_okSections (o.fails ++ [o.n])
+    simp only [List.sum_append, List.sum_cons, List.sum_nil, Nat.add_zero] at this
+    simp only [Op.sections, Op.messages]
+    omega
 
 theorem tot_succ (n : Nat) (f : Nat → List Step) : tot (n + 1) f = tot n f + sends (f n) := by
   simp [tot, List.range_succ]
@@ -391,6 +459,9 @@ theorem step_progs (s : St) (k : Chk) (t : Nat) (h : Inv s k) :
     | rel =>
       simp only [step, hp]
       exact ⟨r, rfl, by simp [sent, sends]⟩
+    | abort =>
+      simp only [step, hp]
+      exact ⟨r, rfl, by simp [sent, sends]⟩
 
 theorem sent_tot (n : Nat) (sched : List Nat) : ∀ (s : St) (k : Chk), Inv s k → (∀ t, n ≤ t → s.progs t = []) →
     (sent (run s sched)).length + tot n (after s sched).progs = tot n s.progs := by
@@ -430,10 +501,11 @@ theorem map_range_getD {α β : Type} (l : List α) (d : α) (g : α → β) :
     rw [← ih]
     simp [Function.comp_def]
 
-theorem tot_init (tasks : List (List Nat)) :
-    tot tasks.length (init tasks).progs = (tasks.map List.sum).sum := by
+theorem tot_init (tasks : List (List Sec)) :
+    tot tasks.length (init tasks).progs = (tasks.map secMessages).sum := by
   simp only [tot, init, sends_prog]
-  rw [map_range_getD tasks [] List.sum]
+  rw [map_range_getD tasks [] (fun xs => (xs.map Sec.messages).sum)]
+  rfl
 
 /-- the statements above, read for tasks whose sections are attempts of operations -/
 theorem retries_serialised (tasks : List (List Op)) (sched : List Nat) :
@@ -445,6 +517,26 @@ theorem retries_counted (tasks : List (List Op)) (sched : List Nat) :
       = counters mbxStart (sent (run (init (tasks.map opSections)) sched)).length :=
   inproc_counted _ _
 
+/-- **failed and cancelled exchanges, counted to the end**: any number of tasks, each with any blocks, each block
+with any number of complete exchanges and — if `cut` — a last request after which the block was left by an exception
+(abort answer, unprocessed datagram, timeout, cancellation at any point once the request is out).  Under every
+schedule after which all tasks are done, the counters on the bus are 0,1,…,7,1,… with exactly one per message that
+left, abandoned requests included: the exchange after a failed or cancelled one neither repeats its counter nor
+skips one, whoever performs it -/
+theorem failed_total (tasks : List (List Sec)) (sched : List Nat)
+    (hdone : ∀ t, (after (init tasks) sched).progs t = []) :
+    sent (run (init tasks) sched) = counters mbxStart ((tasks.map secMessages).sum) := by
+  have h := sent_tot tasks.length sched (init tasks) chk0 (init_inv _)
+    (by
+      intro t ht
+      have hn : tasks[t]? = none := List.getElem?_eq_none (by simpa using ht)
+      simp [init, List.getD, hn, prog])
+  rw [tot_init] at h
+  have h0 : tot tasks.length (after (init tasks) sched).progs = 0 := tot_zero _ _ hdone
+  rw [h0] at h
+  rw [inproc_counted, ← h]
+  simp
+
 /-- **retries, counted to the end**: any number of tasks, each with any operations, each operation with any
 number of attempts that failed before their next message was written; under every schedule after which all
 tasks are done, the counters on the wire are 0,1,…,7,1,… with exactly one per message that left
@@ -453,22 +545,12 @@ theorem retries_total (tasks : List (List Op)) (sched : List Nat)
     (hdone : ∀ t, (after (init (tasks.map opSections)) sched).progs t = []) :
     sent (run (init (tasks.map opSections)) sched)
       = counters mbxStart ((tasks.map opMessages).sum) := by
-  have h := sent_tot (tasks.map opSections).length sched (init (tasks.map opSections)) chk0 (init_inv _)
-    (by
-      intro t ht
-      have hn : tasks[t]? = none := List.getElem?_eq_none (by simpa using ht)
-      simp [init, List.getD, hn, prog])
-  rw [tot_init] at h
-  have h0 : tot (tasks.map opSections).length (after (init (tasks.map opSections)) sched).progs = 0 := by
-    exact tot_zero _ _ hdone
-  rw [h0, List.map_map] at h
-  have hs : (tasks.map (List.sum ∘ opSections)) = tasks.map opMessages := by
+  rw [failed_total _ _ hdone, List.map_map]
+  have hs : (tasks.map (secMessages ∘ opSections)) = tasks.map opMessages := by
     apply List.map_congr_left
     intro ops _
     exact sum_opSections ops
-  rw [hs] at h
-  rw [retries_counted, ← h]
-  simp
+  rw [hs]
 
 /-! non-vacuity: task 0 reads (one exchange) after two attempts that failed before sending, task 1 writes a
 value in three exchanges after an attempt that got one message out -/
@@ -491,6 +573,7 @@ def wfX : XMode → List PStep → Bool
   | .pend, .recv :: r => wfX .inn r
   | .inn, .pwrite :: r => wfX .exiting r
   | .exiting, .unlock :: r => wfX .out r
+  | .pend, .abort :: r => wfX .inn r
   | _, _ => false
 
 theorem wfX_exchanges (n : Nat) (q : List PStep) : wfX .inn (exchangesX n ++ q) = wfX .inn q := by
@@ -498,13 +581,13 @@ theorem wfX_exchanges (n : Nat) (q : List PStep) : wfX .inn (exchangesX n ++ q) 
   | zero => rfl
   | succ n ih => simpa [exchangesX, wfX] using ih
 
-theorem wfX_prog (ns : List Nat) : wfX .out (progX ns) = true := by
+theorem wfX_prog (ns : List Sec) : wfX .out (progX ns) = true := by
   induction ns with
   | nil => rfl
-  | cons n ns ih =>
+  | cons x xs ih =>
     simp only [progX, criticalX, List.cons_append, wfX, List.append_assoc]
     rw [wfX_exchanges]
-    simpa [wfX] using ih
+    cases hc : x.cut <;> simpa [endingX, wfX] using ih
 
 theorem wfX_out {p : List PStep} (h : wfX .out p = true) : p = [] ∨ ∃ r, p = .enter :: r ∧ wfX .got r = true := by
   cases p with
@@ -522,7 +605,8 @@ theorem wfX_inn {p : List PStep} (h : wfX .inn p = true) :
   | nil => simp [wfX] at h
   | cons a r => cases a <;> simp_all [wfX]
 
-theorem wfX_pend {p : List PStep} (h : wfX .pend p = true) : ∃ r, p = .recv :: r ∧ wfX .inn r = true := by
+theorem wfX_pend {p : List PStep} (h : wfX .pend p = true) :
+    ∃ r, (p = .recv :: r ∨ p = .abort :: r) ∧ wfX .inn r = true := by
   cases p with
   | nil => simp [wfX] at h
   | cons a r => cases a <;> simp_all [wfX]
@@ -647,7 +731,8 @@ theorem tryLock_inv {s : XSt} {k : XChk} {m : XMode} {p t : Nat} {r : List PStep
     (hrdy : P.init = .ready)
     (hr : wfX .got r = true) :
     ∃ k' m', XInv (tryLock s p t P r).1 k' m' ∧
-      ∀ rest, checkX k ((tryLock s p t P r).2 ++ rest) = checkX k' rest := by
+      (∀ rest, checkX k ((tryLock s p t P r).2 ++ rest) = checkX k' rest) ∧
+      k'.last = lastFromX k.last (tryLock s p t P r).2 := by
   cases hk : k.holder with
   | none =>
     have hown : s.file.owner = none := by rw [h.owner, hk]; rfl
@@ -656,7 +741,8 @@ theorem tryLock_inv {s : XSt} {k : XChk} {m : XMode} {p t : Nat} {r : List PStep
     have hpend := pend_false h (by simp)
     have hho : holdOf k p = none := by simp [holdOf, hk]
     rw [hho] at hP
-    refine ⟨{ k with holder := some (p, t) }, .got, ?_, fun rest => by simp [tryLock, hown, checkX, xchk1, hk]⟩
+    refine ⟨{ k with holder := some (p, t) }, .got, ?_, fun rest => by simp [tryLock, hown, checkX, xchk1, hk],
+      by simp [tryLock, hown, lastFromX]⟩
     have hfree : (s.file.owner.isSome && s.file.owner != some p) = false := by simp [hown]
     simp only [tryLock, hfree, Bool.false_eq_true, ↓reduceIte]
     refine ⟨xinv_procs_holder h (.inl hk) (.inr ⟨t, rfl⟩) ?_, by simp, by simp, by simp [hpend],
@@ -677,7 +763,7 @@ theorem tryLock_inv {s : XSt} {k : XChk} {m : XMode} {p t : Nat} {r : List PStep
       rw [hth] at this
       exact hnot (by rw [hk]; simp at this; rw [this])
     have hown : s.file.owner = some q := by rw [h.owner, hk]; rfl
-    refine ⟨k, m, ?_, fun rest => by simp [tryLock, hown, hqp, checkX, xchk1]⟩
+    refine ⟨k, m, ?_, fun rest => by simp [tryLock, hown, hqp, checkX, xchk1], by simp [tryLock, hown, hqp, lastFromX]⟩
     have hbusy : (s.file.owner.isSome && s.file.owner != some p) = true := by simp [hown, hqp]
     simp only [tryLock, hbusy, ↓reduceIte]
     exact ⟨xinv_procs_same h ⟨hP.wf, hP.tl, hP.woken, hP.ctr, hP.ready, by simp⟩, h.owner, h.mode, h.pend, h.byte⟩
@@ -707,27 +793,40 @@ theorem started_step (s : XSt) (pt : Nat × Nat) (hs : s.file.present = true) :
   repeat' split
   all_goals simp_all
 
+theorem stepX_off (s : XSt) (pt : Nat × Nat) : (stepX s pt).1.off = s.off := by
+  unfold stepX tryLock
+  simp only []
+  repeat' split
+  all_goals simp_all
+
+theorem afterX_off (s : XSt) (sc : List (Nat × Nat)) : (afterX s sc).off = s.off := by
+  induction sc generalizing s with
+  | nil => rfl
+  | cons pt rest ih => simp only [afterX]; rw [ih, stepX_off]
+
 theorem stepX_inv (s : XSt) (k : XChk) (m : XMode) (pt : Nat × Nat) (h : XInv s k m)
     (hpres : s.file.present = true) :
-    ∃ k' m', XInv (stepX s pt).1 k' m' ∧ ∀ rest, checkX k ((stepX s pt).2 ++ rest) = checkX k' rest := by
+    ∃ k' m', XInv (stepX s pt).1 k' m' ∧ (∀ rest, checkX k ((stepX s pt).2 ++ rest) = checkX k' rest) ∧
+      k'.last = lastFromX k.last (stepX s pt).2 := by
   obtain ⟨p, t⟩ := pt
   have hP := h.procs p
   cases hinit : (s.procs p).init with
   | fresh =>
-    refine ⟨k, m, ?_, fun rest => by simp [stepX, hinit, hpres, checkX, xchk1]⟩
+    refine ⟨k, m, ?_, fun rest => by simp [stepX, hinit, hpres, checkX, xchk1], by simp [stepX, hinit, hpres, lastFromX]⟩
     simp only [stepX, hinit, hpres, ↓reduceIte]
     exact xinv_init_step h .opening s.file (by simp [hinit]) rfl rfl
   | created =>
-    refine ⟨k, m, ?_, fun rest => by simp [stepX, hinit, checkX, xchk1]⟩
+    refine ⟨k, m, ?_, fun rest => by simp [stepX, hinit, checkX, xchk1], by simp [stepX, hinit, lastFromX]⟩
     simp only [stepX, hinit]
     exact xinv_init_step h .ready _ (by simp [hinit]) rfl (cur_truncTo _ _ _)
   | opening =>
-    refine ⟨k, m, ?_, fun rest => by simp [stepX, hinit, checkX, xchk1]⟩
+    refine ⟨k, m, ?_, fun rest => by simp [stepX, hinit, checkX, xchk1], by simp [stepX, hinit, lastFromX]⟩
     simp only [stepX, hinit]
     exact xinv_init_step h .ready s.file (by simp [hinit]) rfl rfl
   | ready =>
     cases hb : ((s.procs p).busy.isSome && (s.procs p).busy != some t) with
-    | true => exact ⟨k, m, by simpa [stepX, hinit, hb] using h, fun rest => by simp [stepX, hinit, hb]⟩
+    | true => exact ⟨k, m, by simpa [stepX, hinit, hb] using h, fun rest => by simp [stepX, hinit, hb],
+        by simp [stepX, hinit, hb, lastFromX]⟩
     | false =>
       by_cases hh : k.holder = some (p, t)
       · have hho : holdOf k p = some t := holdOf_self hh
@@ -743,7 +842,7 @@ theorem stepX_inv (s : XSt) (k : XChk) (m : XMode) (pt : Nat × Nat) (h : XInv s
           obtain ⟨r, hpr, hr⟩ := wfX_got hwf
           have hf := h.byte (by simp) (by simp)
           have hpend := pend_false h (by simp)
-          refine ⟨k, .inn, ?_, fun rest => ?_⟩
+          refine ⟨k, .inn, ?_, fun rest => ?_, ?_⟩
           · simp only [stepX, hinit, hb, hpr]
             refine ⟨xinv_procs_holder h h1 h1 ?_, h.owner, by simp [hh], by simp [hpend], by simp⟩
             rw [hho]
@@ -753,19 +852,22 @@ theorem stepX_inv (s : XSt) (k : XChk) (m : XMode) (pt : Nat × Nat) (h : XInv s
             | some v =>
               have : v ≤ mbxMod := by have := follows_le hf; simpa [cur, hd] using this
               simp [stepX, hinit, hb, hpr, hd, checkX, xchk1, hh, this]
+          · cases hd : s.file.data[s.off]? <;> simp [stepX, hinit, hb, hpr, hd, lastFromX]
         | inn =>
           subst hm
           obtain ⟨c, hc, hfc⟩ := hP.ctr rfl (.inl rfl)
           have hpend := pend_false h (by simp)
           rcases wfX_inn hwf with ⟨r, hpr, hr⟩ | ⟨r, hpr, hr⟩
           · refine ⟨{ k with last := some c, pend := true }, .pend, ?_,
-              fun rest => by simp [stepX, hinit, hb, hpr, hc, checkX, xchk1, hh, hpend, hfc]⟩
+              fun rest => by simp [stepX, hinit, hb, hpr, hc, checkX, xchk1, hh, hpend, hfc],
+              by simp [stepX, hinit, hb, hpr, hc, lastFromX]⟩
             simp only [stepX, hinit, hb, hpr, hc]
             refine ⟨xinv_procs_holder h h1 (.inr ⟨t, hh⟩) ?_, h.owner, by simp [hh], by simp, by simp⟩
             rw [holdOf_self (k := { k with last := some c, pend := true }) hh]
             exact ⟨wf_cont hP rfl hr _ (.inl rfl), hP.tl, hP.woken, fun _ _ => ⟨nextCounter c, rfl, by simp [follows]⟩,
               fun _ => rfl, hP.busy⟩
-          · refine ⟨k, .exiting, ?_, fun rest => by simp [stepX, hinit, hb, hpr, hc, checkX, xchk1, hh, hpend]⟩
+          · refine ⟨k, .exiting, ?_, fun rest => by simp [stepX, hinit, hb, hpr, hc, checkX, xchk1, hh, hpend],
+              by simp [stepX, hinit, hb, hpr, hc, lastFromX]⟩
             simp only [stepX, hinit, hb, hpr, hc]
             refine ⟨xinv_procs_holder h h1 h1 ?_, h.owner, by simp [hh], by simp [hpend],
               fun _ _ => by simpa [cur_putByte] using hfc⟩
@@ -777,19 +879,24 @@ theorem stepX_inv (s : XSt) (k : XChk) (m : XMode) (pt : Nat × Nat) (h : XInv s
           obtain ⟨c, hc, hfc⟩ := hP.ctr rfl (.inr rfl)
           have hpend : k.pend = true := h.pend.2 rfl
           obtain ⟨r, hpr, hr⟩ := wfX_pend hwf
-          refine ⟨{ k with pend := false }, .inn, ?_,
-            fun rest => by simp [stepX, hinit, hb, hpr, checkX, xchk1, hh, hpend]⟩
-          simp only [stepX, hinit, hb, hpr]
-          refine ⟨xinv_procs_holder h h1 (.inr ⟨t, hh⟩) ?_, h.owner, by simp [hh], by simp, by simp⟩
-          rw [holdOf_self (k := { k with pend := false }) hh]
-          exact ⟨wf_cont hP rfl hr _ (.inl rfl), hP.tl, hP.woken, fun _ _ => ⟨c, hc, hfc⟩, fun _ => rfl, hP.busy⟩
+          -- the response is read, or the exception that ends the block abandons the request: the counter the
+          -- lock object holds is the same in both cases, and `__aexit__` will write it
+          rcases hpr with hpr | hpr <;> (
+            refine ⟨{ k with pend := false }, .inn, ?_,
+              fun rest => by simp [stepX, hinit, hb, hpr, checkX, xchk1, hh, hpend],
+              by simp [stepX, hinit, hb, hpr, lastFromX]⟩
+            simp only [stepX, hinit, hb, hpr]
+            refine ⟨xinv_procs_holder h h1 (.inr ⟨t, hh⟩) ?_, h.owner, by simp [hh], by simp, by simp⟩
+            rw [holdOf_self (k := { k with pend := false }) hh]
+            exact ⟨wf_cont hP rfl hr _ (.inl rfl), hP.tl, hP.woken, fun _ _ => ⟨c, hc, hfc⟩, fun _ => rfl, hP.busy⟩)
         | exiting =>
           subst hm
           have hpend := pend_false h (by simp)
           have hf := h.byte (by simp) (by simp)
           obtain ⟨r, hpr, hr⟩ := wfX_exiting hwf
           have hown : s.file.owner = some p := by rw [h.owner, hh]; rfl
-          refine ⟨{ k with holder := none }, .out, ?_, fun rest => by simp [stepX, hinit, hb, hpr, checkX, xchk1, hh]⟩
+          refine ⟨{ k with holder := none }, .out, ?_, fun rest => by simp [stepX, hinit, hb, hpr, checkX, xchk1, hh],
+            by simp [stepX, hinit, hb, hpr, lastFromX]⟩
           simp only [stepX, hinit, hb, hpr, hown]
           refine ⟨xinv_procs_holder h h1 (.inl rfl) ?_, by simp, by simp, by simp [hpend], fun _ _ => hf⟩
           have : holdOf { k with holder := none } p = none := by simp [holdOf]
@@ -799,7 +906,8 @@ theorem stepX_inv (s : XSt) (k : XChk) (m : XMode) (pt : Nat × Nat) (h : XInv s
         have hwf := hP.wf t
         simp only [hnot, ↓reduceIte] at hwf
         rcases wfX_out hwf with hpr | ⟨r, hpr, hr⟩
-        · exact ⟨k, m, by simpa [stepX, hinit, hb, hpr] using h, fun rest => by simp [stepX, hinit, hb, hpr]⟩
+        · exact ⟨k, m, by simpa [stepX, hinit, hb, hpr] using h, fun rest => by simp [stepX, hinit, hb, hpr],
+            by simp [stepX, hinit, hb, hpr, lastFromX]⟩
         · cases hth : ((s.procs p).tholder == some t) with
           | true =>
             have := tryLock_inv (r := r) h hh hP (by simpa using hth) hinit hr
@@ -808,10 +916,12 @@ theorem stepX_inv (s : XSt) (k : XChk) (m : XMode) (pt : Nat × Nat) (h : XInv s
             by_cases hw : t ∈ (s.procs p).twaiters
             · cases hwk : ((s.procs p).twoken && (s.procs p).twaiters.head? == some t) with
               | false => exact ⟨k, m, by simpa [stepX, hinit, hb, hpr, hth, hw, hwk] using h,
-                  fun rest => by simp [stepX, hinit, hb, hpr, hth, hw, hwk]⟩
+                  fun rest => by simp [stepX, hinit, hb, hpr, hth, hw, hwk],
+                  by simp [stepX, hinit, hb, hpr, hth, hw, hwk, lastFromX]⟩
               | true =>
                 have hwoken : (s.procs p).twoken = true := by simp at hwk; exact hwk.1
-                refine ⟨k, m, ?_, fun rest => by simp [stepX, hinit, hb, hpr, hth, hw, hwk]⟩
+                refine ⟨k, m, ?_, fun rest => by simp [stepX, hinit, hb, hpr, hth, hw, hwk],
+                  by simp [stepX, hinit, hb, hpr, hth, hw, hwk, lastFromX]⟩
                 simp only [stepX, hinit, hb, hpr, hth, hw, hwk, Bool.false_eq_true, ↓reduceIte]
                 refine ⟨xinv_procs_same h ⟨hP.wf, fun u hu => ?_, by simp, hP.ctr, fun _ => rfl, by simp⟩, h.owner, h.mode, h.pend, h.byte⟩
                 have := hP.tl u hu
@@ -828,7 +938,8 @@ theorem stepX_inv (s : XSt) (k : XChk) (m : XMode) (pt : Nat × Nat) (h : XInv s
                 have := tryLock_inv (r := r) h hh hP1 rfl hinit hr
                 simpa [stepX, hinit, hb, hpr, hth, hw, hf] using this
               | false =>
-                refine ⟨k, m, ?_, fun rest => by simp [stepX, hinit, hb, hpr, hth, hw, hf]⟩
+                refine ⟨k, m, ?_, fun rest => by simp [stepX, hinit, hb, hpr, hth, hw, hf],
+                  by simp [stepX, hinit, hb, hpr, hth, hw, hf, lastFromX]⟩
                 simp only [stepX, hinit, hb, hpr, hth, hw, hf, Bool.false_eq_true, ↓reduceIte]
                 exact ⟨xinv_procs_same h ⟨hP.wf, hP.tl, fun hwk => ⟨(hP.woken hwk).1, by simp⟩, hP.ctr, fun _ => rfl, hP.busy⟩,
                   h.owner, h.mode, h.pend, h.byte⟩
@@ -838,7 +949,7 @@ theorem runX_ok (s : XSt) (k : XChk) (m : XMode) (sched : List (Nat × Nat)) (h 
   induction sched generalizing s k m with
   | nil => rfl
   | cons pt rest ih =>
-    obtain ⟨k', m', hi, hc⟩ := stepX_inv s k m pt h hp
+    obtain ⟨k', m', hi, hc, -⟩ := stepX_inv s k m pt h hp
     simp only [runX]
     rw [hc]; exact ih _ _ _ hi (started_step s pt hp)
 
@@ -847,16 +958,45 @@ theorem afterX_inv (s : XSt) (k : XChk) (m : XMode) (sched : List (Nat × Nat)) 
   induction sched generalizing s k m with
   | nil => exact ⟨k, m, h⟩
   | cons pt rest ih =>
-    obtain ⟨k', m', hi, -⟩ := stepX_inv s k m pt h hp
+    obtain ⟨k', m', hi, -, -⟩ := stepX_inv s k m pt h hp
     exact ih _ _ _ hi (started_step s pt hp)
 
+theorem lastFromX_append (l : Option Nat) (a b : List XEv) :
+    lastFromX l (a ++ b) = lastFromX (lastFromX l a) b := by
+  induction a generalizing l with
+  | nil => rfl
+  | cons e a ih => cases e <;> simp [lastFromX, ih]
+
+/-- the invariant after a schedule, for the view whose `last` is the counter of the latest message on the bus -/
+theorem afterX_track (s : XSt) (k : XChk) (m : XMode) (sched : List (Nat × Nat)) (h : XInv s k m)
+    (hp : s.file.present = true) :
+    ∃ k' m', XInv (afterX s sched) k' m' ∧ k'.last = lastFromX k.last (runX s sched) := by
+  induction sched generalizing s k m with
+  | nil => exact ⟨k, m, h, rfl⟩
+  | cons pt rest ih =>
+    obtain ⟨k1, m1, hi, -, hl⟩ := stepX_inv s k m pt h hp
+    obtain ⟨k2, m2, hi2, hl2⟩ := ih _ _ _ hi (started_step s pt hp)
+    exact ⟨k2, m2, hi2, by simp only [runX, lastFromX_append]; rw [hl2, hl]⟩
+
+/-- when nobody holds the record lock, the terminal's byte continues the count of the bus -/
+theorem free_byte {s : XSt} {k : XChk} {m : XMode} (h : XInv s k m) (hfree : s.file.owner = none) :
+    follows k.last (cur s.file.data s.off) = true := by
+  have hk : k.holder = none := by
+    have := h.owner; rw [hfree] at this
+    cases hh : k.holder with
+    | none => rfl
+    | some x => rw [hh] at this; simp at this
+  have hm := h.mode.1 hk
+  subst hm
+  exact h.byte (by simp) (by simp)
+
 /-- no task has started: any state of `LockFile.__init__`, nobody holds or waits for the task lock -/
-theorem pinv_idle (tasks : List (List (List Nat))) (q : Nat) (i : InitSt) (l : Option Nat) :
+theorem pinv_idle (tasks : List (List (List Sec))) (q : Nat) (i : InitSt) (l : Option Nat) :
     PInv { init := i, ctr := none, busy := none, tholder := none, twoken := false, twaiters := [],
            progs := fun t => progX ((tasks.getD q []).getD t []) } none .out l :=
   ⟨fun t => by simp [wfX_prog], by simp, by simp, by simp, by simp, by simp⟩
 
-theorem initX_inv (size off : Nat) (data : List Nat) (tasks : List (List (List Nat))) (hf : fileOk off data = true) :
+theorem initX_inv (size off : Nat) (data : List Nat) (tasks : List (List (List Sec))) (hf : fileOk off data = true) :
     XInv (initX size off (some data) tasks) xchk0 .out := by
   refine ⟨fun q => ?_, rfl, by simp [xchk0], by simp [xchk0], fun _ _ => by simpa [fileOk, follows, xchk0, initX] using hf⟩
   have : holdOf xchk0 q = none := by simp [holdOf, xchk0]
@@ -868,13 +1008,13 @@ and exchanges, lock file present with a counter in the terminal's byte: under ev
 operations and of the tasks, critical sections of different users never overlap, each request is answered before
 the next one leaves, the counters of successive messages of all users are consecutive in the cycle, every counter
 read from the file is valid, and no user fails -/
-theorem crossproc_serialised (size off : Nat) (data : List Nat) (tasks : List (List (List Nat)))
+theorem crossproc_serialised (size off : Nat) (data : List Nat) (tasks : List (List (List Sec)))
     (sched : List (Nat × Nat)) (hf : fileOk off data = true) :
     checkX xchk0 (runX (initX size off (some data) tasks) sched) = true :=
   runX_ok _ _ _ _ (initX_inv size off data tasks hf) rfl
 
 /-- the state right after some process created the file (nothing else has happened) -/
-theorem created_inv (size off : Nat) (tasks : List (List (List Nat))) (p : Nat) :
+theorem created_inv (size off : Nat) (tasks : List (List (List Sec))) (p : Nat) :
     XInv { (initX size off none tasks) with
             file := { present := true, data := [], owner := none },
             procs := setProc (initX size off none tasks).procs p
@@ -890,7 +1030,7 @@ theorem created_inv (size off : Nat) (tasks : List (List (List Nat))) (p : Nat) 
 particular with other processes opening, locking, reading and writing between the creator's `O_EXCL` open and
 its `ftruncate` — every user obtains a valid counter (0 on a short read), nobody fails, and everything is
 serialised and counted from 0 -/
-theorem creation_window_safe (size off : Nat) (tasks : List (List (List Nat))) (sched : List (Nat × Nat)) :
+theorem creation_window_safe (size off : Nat) (tasks : List (List (List Sec))) (sched : List (Nat × Nat)) :
     checkX xchk0 (runX (initX size off none tasks) sched) = true := by
   cases sched with
   | nil => rfl
@@ -908,7 +1048,7 @@ theorem creation_window_safe (size off : Nat) (tasks : List (List (List Nat))) (
 /-- **nobody spins forever on a dead lock**: in every reachable state, if the record lock is held by process `p`
 then one task of `p` holds it together with the task lock, the process is free to run that task, and the task's
 next step is none of the steps that can wait (`enter`): the holder can always proceed to its `unlock` -/
-theorem holder_can_proceed (size off : Nat) (file : Option (List Nat)) (tasks : List (List (List Nat)))
+theorem holder_can_proceed (size off : Nat) (file : Option (List Nat)) (tasks : List (List (List Sec)))
     (sched : List (Nat × Nat)) (hf : ∀ d, file = some d → fileOk off d = true) (p : Nat)
     (ho : (afterX (initX size off file tasks) sched).file.owner = some p) :
     ∃ t st r, ((afterX (initX size off file tasks) sched).procs p).progs t = st :: r ∧ st ≠ .enter ∧
@@ -960,6 +1100,41 @@ theorem holder_can_proceed (size off : Nat) (file : Option (List Nat)) (tasks : 
       obtain ⟨k', m', hi⟩ := afterX_inv _ _ _ rest (created_inv size off tasks q) rfl
       exact key _ _ _ hi ho
 
+/-- **the lock file is left in the state the next user expects**: any number of processes and tasks, blocks that
+end normally, by an error between two exchanges, or by an exception/cancellation that abandons the request that is
+out; lock file present (with a counter in the terminal's byte) or absent; every schedule.  Whenever nobody holds the
+record lock, the terminal's byte in the file (0 if the file is still short) is the successor of the counter of the
+latest message on the bus (a counter ≤ 7 while nothing has been sent): the next user — another task, another
+process, the same one again — reads exactly the counter the terminal expects, whatever happened to the earlier
+exchanges -/
+theorem file_tracks_bus (size off : Nat) (file : Option (List Nat)) (tasks : List (List (List Sec)))
+    (sched : List (Nat × Nat)) (hf : ∀ d, file = some d → fileOk off d = true)
+    (hfree : (afterX (initX size off file tasks) sched).file.owner = none) :
+    follows (lastFromX none (runX (initX size off file tasks) sched))
+      (cur (afterX (initX size off file tasks) sched).file.data off) = true := by
+  cases file with
+  | some d =>
+    obtain ⟨k', m', hi, hl⟩ := afterX_track _ _ _ sched (initX_inv size off d tasks (hf d rfl)) rfl
+    have := free_byte hi hfree
+    rw [hl, afterX_off] at this
+    exact this
+  | none =>
+    cases sched with
+    | nil => simp [afterX, runX, lastFromX, initX, follows, cur]
+    | cons pt rest =>
+      obtain ⟨q, t⟩ := pt
+      have e1 : stepX (initX size off none tasks) (q, t) =
+          ({ (initX size off none tasks) with
+              file := { present := true, data := [], owner := none },
+              procs := setProc (initX size off none tasks).procs q
+                { ((initX size off none tasks).procs q) with init := .created } }, [.creat q true]) := by
+        simp [stepX, initX]
+      simp only [afterX, runX, e1, List.singleton_append, lastFromX] at hfree ⊢
+      obtain ⟨k', m', hi, hl⟩ := afterX_track _ _ _ rest (created_inv size off tasks q) rfl
+      have := free_byte hi hfree
+      rw [hl, afterX_off] at this
+      exact this
+
 /-- **addresses**: every address `find_free_address` can hand out (`randint(lo, hi)`, both ends included) is
 accepted by `ParallelMailboxLock(LockFile(name, lo, hi), address)`, and the created file has a byte for it -/
 theorem addr_accepted (no : Nat) (h1 : addrLo ≤ no) (h2 : no ≤ addrHi) :
@@ -988,6 +1163,19 @@ theorem creation_window_witness_now :
       [.creat 0 true, .creat 1 false, .opened 1, .lockOk 1 0, .preadEmpty 1 0, .send 1 0 0, .recv 1 0, .pwrite 1 0 1,
        .unlock 1 0, .winit 0, .lockOk 0 0, .pread 0 0 1, .send 0 0 1, .recv 0 0, .pwrite 0 0 2, .unlock 0 0] ∧
     (afterX (initX 3 1 none [[[1]], [[1]]]) windowSched).file.data = [0, 2, 0, 0] := by decide
+
+/-- process 0 sends a request with counter 5 and its block is left by an exception (the request stays unanswered)
+while process 1 spins on the record lock; `__aexit__` writes 6, process 1 reads 6 and continues 6, then 7 is stored -/
+theorem failed_crossproc_witness :
+    runX (initX 3 1 (some [0, 5, 0, 0]) [[[⟨0, true⟩]], [[1]]])
+      [(0,0), (0,0), (1,0), (1,0), (0,0), (0,0), (0,0), (1,0), (0,0), (0,0), (0,0),
+       (1,0), (1,0), (1,0), (1,0), (1,0), (1,0)] =
+    [.creat 0 false, .opened 0, .creat 1 false, .opened 1, .lockOk 0 0, .pread 0 0 5, .send 0 0 5, .lockBusy 1 0,
+     .abort 0 0, .pwrite 0 0 6, .unlock 0 0, .lockOk 1 0, .pread 1 0 6, .send 1 0 6, .recv 1 0, .pwrite 1 0 7,
+     .unlock 1 0] ∧
+    (afterX (initX 3 1 (some [0, 5, 0, 0]) [[[⟨0, true⟩]], [[1]]])
+      [(0,0), (0,0), (1,0), (1,0), (0,0), (0,0), (0,0), (1,0), (0,0), (0,0), (0,0)]).file.data = [0, 6, 0, 0] := by
+  decide
 
 /-- two processes contend for the byte; the second spins on `lockf`, then continues the count 5,6,7,1 -/
 example : runX (initX 3 1 (some [0, 5, 0, 0]) [[[1]], [[2]]])
